@@ -2,7 +2,7 @@
 # tools/seedconfirm.sh <name> <dir with patch.diff and demo.rs> <scratch worktree with its own target/>
 # Confirms a seeded change against /repo's CURRENT HEAD in the given scratch worktree: the stable
 # tests of the pinned suite (BASELINE.json stable_pass; the 17 slow/flaky/always-failing tests are
-# filtered out by name, file /tmp/seed/nonstable.expr) pass with the change, the demonstration
+# filtered out by name, file /verif/tools/nonstable.expr) pass with the change, the demonstration
 # fails with it and passes without it.  Logs under /tmp/seed/.
 name=$1; d=$2; T=$3
 export CARGO_NET_OFFLINE=true CARGO_TARGET_DIR=$T/target WALRUS_QUIET=1 TMPDIR=/dev/shm/seedtmp-$name
@@ -11,7 +11,7 @@ cd $T && git checkout -q -- . && rm -f tests/seed_demo*.rs && git checkout -q --
 git apply $d/patch.diff 2>/dev/null || git apply --3way $d/patch.diff || { echo "$name PATCH DOES NOT APPLY"; exit 2; }
 git diff HEAD > /tmp/seed/$name-ported.diff
 find src -name '*.rs' -newer Cargo.toml -exec touch {} \; ; touch $(git diff HEAD --name-only)
-cargo nextest run --workspace --no-fail-fast --tool-config-file pb:/w/lib/nextest.toml --profile pb --test-threads ${THREADS:-6} --offline -E "$(cat /tmp/seed/nonstable.expr)" > /tmp/seed/$name-suite.log 2>&1
+cargo nextest run --workspace --no-fail-fast --tool-config-file pb:/w/lib/nextest.toml --profile pb --test-threads ${THREADS:-6} --offline -E "$(cat /verif/tools/nonstable.expr)" > /tmp/seed/$name-suite.log 2>&1
 cp $CARGO_TARGET_DIR/nextest/pb/junit.xml /tmp/seed/$name-suite.junit.xml
 echo "$name suite with change: $(python3 /root/bl/check_bl.py /tmp/seed/$name-suite.junit.xml)"
 if [ -f $d/demo.rs ] && ! grep -q "fn main" $d/demo.rs; then
